@@ -479,18 +479,26 @@ pub fn c_blank_b<S: Src, const N: usize>(s: &mut S) {
     chk!(s, spec_base(&d.storage, N + j) == buf[j], "extend after blank appends the items");
 }
 
-/// BOUNDED (two CONCRETE reads, symbolic nothing): from_acgt_bytes_hashn leaves ACGT untouched, substitutes only valid
+/// BOUNDED (eight CONCRETE reads, nothing symbolic): from_acgt_bytes_hashn leaves ACGT untouched, substitutes only valid
 /// bases, and the substitute at a position does not depend on earlier Ns (function of (read name, position)).
 pub fn c_hashn_concrete<S: Src>(s: &mut S) {
     s.cover(true);
     let name = [b'r', b'1'];
-    let a = DnaString::from_acgt_bytes_hashn(b"NCNGN", &name);
-    let b = DnaString::from_acgt_bytes_hashn(b"ACAGN", &name);
-    let c = DnaString::from_acgt_bytes_hashn(b"NCNGN", &name);
-    chk!(s, a.len == 5 && b.len == 5, "hashn: one base per byte");
-    chk!(s, spec_base(&a.storage, 1) == 1 && spec_base(&a.storage, 3) == 2, "hashn leaves ACGT untouched");
-    chk!(s, spec_base(&a.storage, 4) == spec_base(&b.storage, 4), "hashn: the substitute at a position does not depend on earlier Ns");
-    chk!(s, a.storage[0] == c.storage[0], "hashn is deterministic");
+    let all_n = DnaString::from_acgt_bytes_hashn(b"NCNNGNNN", &name);
+    let again = DnaString::from_acgt_bytes_hashn(b"NCNNGNNN", &name);
+    chk!(s, all_n.len == 8, "hashn: one base per byte");
+    chk!(s, spec_base(&all_n.storage, 1) == 1 && spec_base(&all_n.storage, 4) == 2, "hashn leaves ACGT untouched");
+    chk!(s, all_n.storage[0] == again.storage[0], "hashn is deterministic");
+    // the substitute at position i must be the same whether or not earlier positions were N
+    let singles: [&[u8; 8]; 6] = [b"NCAAGAAA", b"ACNAGAAA", b"ACANGAAA", b"ACAAGNAA", b"ACAAGANA", b"ACAAGAAN"];
+    let pos = [0usize, 2, 3, 5, 6, 7];
+    let mut i = 0;
+    while i < 6 {
+        let one = DnaString::from_acgt_bytes_hashn(singles[i], &name);
+        chk!(s, spec_base(&one.storage, pos[i]) == spec_base(&all_n.storage, pos[i]),
+             "hashn: the substitute at a position is a function of (read name, position) only");
+        i += 1;
+    }
 }
 
 harness!(d_hashn_concrete, c_hashn_concrete, unwind 40);
